@@ -294,3 +294,138 @@ Proof.
     rewrite to_list_Par in Hl. apply bind_Ok in Hl as (vs0 & Hl0 & Hl). inversion Hl; subst.
     cbn [type_of type_of_p]. apply IHc; assumption.
 Qed.
+
+(* ---------------------------------------------------------------- field item: equations *)
+Lemma gn_IField f c k tl adv :
+  match c with Numpy _ (_ :: _ :: _) _ => False | _ => True end ->
+  gn (S f) c (IField k :: tl) adv = do fc <- field_content k c; gn f fc tl adv.
+Proof. destruct c as [dt [|n [|m sh]] data| | | | | | | | | | | |]; try contradiction; intros _; reflexivity. Qed.
+Lemma se_IField f T xs k tl adv :
+  se_ f T xs (IField k :: tl) adv =
+  do t' <- proj_ty k T; do ys <- mapM (proj_v k T) xs;
+  sg f None None t' (map (fun x => Some [x]) ys) (IAt 0 :: tl) adv.
+Proof. unfold se_. destruct (so_ty T); reflexivity. Qed.
+
+(* ---------------------------------------------------------------- projections and the type relation *)
+Lemma proj_ty_ow k T U : optwrap T U ->
+  match proj_ty k U with
+  | Ok U' => exists T', proj_ty k T = Ok T' /\ optwrap T' U'
+  | Err e => proj_ty k T = Err e
+  end.
+Proof.
+  induction 1 as [T|T U H IH].
+  - destruct (proj_ty k T); [eexists; split; [reflexivity|apply ow_refl]|reflexivity].
+  - cbn [proj_ty]. destruct (proj_ty k U) as [U'|e].
+    + destruct IH as (T' & -> & Ho). cbn [rmap]. eexists. split; [reflexivity|apply ow_opt, Ho].
+    + rewrite IH. reflexivity.
+Qed.
+
+Lemma has_type_none_opt U : has_typeb U VNone = true -> (forall ts, U <> TUnion ts) -> exists U0, U = TOpt U0.
+Proof.
+  destruct U as [d| |sz [b|] t|t|[ks|] ts|ts]; cbn [has_typeb]; try discriminate; eauto.
+  intros _ H. exfalso. eapply H. reflexivity.
+Qed.
+Lemma proj_v_ow k T U x : optwrap T U -> has_typeb U x = true -> (forall ts, U <> TUnion ts) -> proj_v k T x = proj_v k U x.
+Proof.
+  intros H Hx Hu. induction H as [T|T U H IH]; [reflexivity|]. rewrite proj_v_opt. specialize (IH Hx Hu).
+  destruct x; cbn [optF]; try exact IH.
+  destruct (has_type_none_opt U Hx Hu) as [U0 ->]. reflexivity.
+Qed.
+
+Lemma gfrag_type_not_union c : gfrag c = true -> forall ts, type_of c <> TUnion ts.
+Proof.
+  intros Hf ts E. destruct (gfrag_ty_cases c Hf) as [[d H]|[H|[(sz & u & H)|(ks & us & H)]]]; rewrite E in H; discriminate.
+Qed.
+
+(* a projected field is not deeper than the record *)
+Lemma zmax_list_In d l x : In x l -> x <= zmax_list d l.
+Proof. unfold zmax_list. induction l as [|y l IH]; cbn [fold_right In]; [contradiction|]. intros [->|H]; [lia|]. specialize (IH H). lia. Qed.
+Lemma proj_ty_depth k T : forall T', proj_ty k T = Ok T' -> tdepth T' <= tdepth T.
+Proof.
+  unfold tdepth. induction T as [d| |sz str t IH|t IH|ks ts IH|ts IH] using ty_ind'; intros T' H; cbn [proj_ty] in H; try discriminate.
+  - destruct str; [discriminate|]. apply rmap_Ok in H as (t' & Ht & ->). specialize (IH _ Ht). cbn [minmax].
+    destruct (minmax t), (minmax t'). cbn [snd] in *. lia.
+  - apply rmap_Ok in H as (t' & Ht & ->). cbn [minmax]. auto.
+  - apply bind_Ok in H as (i & _ & H). apply get_In in H. cbn [minmax]. destruct ts as [|t0 rest]; [contradiction|].
+    cbn [snd]. apply zmax_list_In. rewrite map_map. apply in_map_iff. exists T'. auto.
+Qed.
+
+(* ---------------------------------------------------------------- field item at the element level *)
+Lemma PSE_field k tl Nm Ns K : PSE Nm Ns K tl -> PSE (1 + Nm) (1 + Ns) K (IField k :: tl).
+Proof.
+  intros IH fm fs c T xs Hfm Hfs HK Hsc HV Hfr Hl HT.
+  destruct fm as [|fm]; [lia|]. destruct fs as [|fs]; [lia|].
+  rewrite gn_IField by (apply gfrag_not_nd, Hfr). rewrite se_IField.
+  pose proof (field_content_spec k c xs HV Hfr Hl) as Hfc. unfold FCres in Hfc.
+  pose proof (proj_ty_ow k T _ HT) as Hpt.
+  destruct (field_content k c) as [f|e]; cbn [bind].
+  - destruct Hfc as (Hty & (ys & Hys & Hlf) & HVf & Hff). rewrite Hty in Hpt. destruct Hpt as (T' & HT' & Ho).
+    cbn [sc] in Hsc. rewrite HT' in Hsc |- *. cbn [bind].
+    assert (Hys' : mapM (proj_v k T) xs = Ok ys).
+    { rewrite <- Hys. apply mapM_ext_in. intros x Hx. apply proj_v_ow; [exact HT| |apply gfrag_type_not_union, Hfr].
+      pose proof (to_list_typed_thm c xs HV Hl) as Hty'. rewrite Forall_forall in Hty'. apply Hty', Hx. }
+    rewrite Hys'. cbn [bind]. rewrite sg_singletons.
+    rewrite <- (mapM_zlen _ _ _ Hys). apply R_reinsert_id; [|reflexivity].
+    apply IH; try assumption; try lia. pose proof (proj_ty_depth k T T' HT'). lia.
+  - destruct Hfc as [-> He]. rewrite He in Hpt. rewrite Hpt. cbn [bind]. split; reflexivity.
+Qed.
+
+(* ---------------------------------------------------------------- field item at the list level *)
+Definition proj_l (k : name) (t : ty) (o : option (list value)) : res (option (list value)) :=
+  match o with
+  | None => Ok None
+  | Some l => rmap Some (mapM (proj_v k t) l)
+  end.
+Lemma sg_IField' f str sz t lists k tail adv :
+  sg (S f) str sz t lists (IField k :: tail) adv =
+  do t' <- proj_ty k t; do ls <- mapM (proj_l k t) lists; sg f None sz t' ls tail adv.
+Proof. reflexivity. Qed.
+
+Lemma proj_ty_list k U : forall sz t, so_ty U = TList sz None t ->
+  match proj_ty k t with
+  | Ok t' => exists U', proj_ty k U = Ok U' /\ so_ty U' = TList sz None t'
+  | Err e => proj_ty k U = Err e
+  end.
+Proof.
+  induction U; intros sz t Hs; cbn [so_ty] in Hs; try discriminate.
+  - inversion Hs; subst. cbn [proj_ty]. destruct (proj_ty k t); cbn [rmap]; [eexists; split; reflexivity|reflexivity].
+  - specialize (IHU sz t Hs). cbn [proj_ty]. destruct (proj_ty k t).
+    + destruct IHU as (U' & -> & Hs'). cbn [rmap]. eexists. split; [reflexivity|exact Hs'].
+    + rewrite IHU. reflexivity.
+Qed.
+Lemma proj_v_list_view k U : forall sz t x, so_ty U = TList sz None t -> has_typeb U x = true ->
+  (do y <- proj_v k U x; as_list y) = (do o <- as_list x; proj_l k t o).
+Proof.
+  induction U; intros sz t x Hs Hx; cbn [so_ty] in Hs; try discriminate.
+  - inversion Hs; subst. cbn [has_typeb] in Hx. destruct x; try discriminate. rewrite proj_v_list. cbn [as_list bind proj_l].
+    destruct (mapM (proj_v k t) l); reflexivity.
+  - rewrite proj_v_opt. destruct x; cbn [optF has_typeb] in *; try (eapply IHU; eassumption). reflexivity.
+Qed.
+
+Lemma PSG_field k tl Nm Ns K : PSG Nm Ns K tl -> PSG (1 + Nm) (1 + Ns) K (IField k :: tl).
+Proof.
+  intros IH fm fs c T xs sz t ls Hfm Hfs HK Hsc HV Hfr Hl HT Hs Hls.
+  destruct fm as [|fm]; [lia|]. destruct fs as [|fs]; [lia|].
+  rewrite gn_IField by (apply gfrag_not_nd, Hfr). rewrite sg_IField'.
+  pose proof (field_content_spec k c xs HV Hfr Hl) as Hfc. unfold FCres in Hfc.
+  pose proof (list_type_of_c c T sz t HT Hs) as HsU.
+  pose proof (proj_ty_list k (type_of c) sz t HsU) as Hpl.
+  pose proof (proj_ty_ow k T _ HT) as Hpt.
+  pose proof (to_list_typed_thm c xs HV Hl) as Htyped.
+  destruct (field_content k c) as [f|e]; cbn [bind].
+  - destruct Hfc as (Hty & (ys & Hys & Hlf) & HVf & Hff). rewrite Hty in Hpt. destruct Hpt as (T' & HT' & Ho).
+    destruct (proj_ty k t) as [t'|e] eqn:Et; [|rewrite Hpl in Hty; discriminate].
+    destruct Hpl as (U' & HU' & HsU'). rewrite Hty in HU'. inversion HU'; subst U'. cbn [bind].
+    assert (Hm : mapM (proj_l k t) ls = mapM as_list ys).
+    { rewrite (mapM_mapM _ _ _ _ Hys), (mapM_mapM _ _ _ _ Hls). apply mapM_ext_in. intros x Hx.
+      symmetry. eapply proj_v_list_view; [exact HsU|]. rewrite Forall_forall in Htyped. apply Htyped, Hx. }
+    destruct (as_list_total ys (list_values f ys sz t' HVf Hlf HsU')) as [ls' Hls']. rewrite Hm, Hls'. cbn [bind].
+    rewrite <- (mapM_zlen _ _ _ Hys).
+    apply (IH fm fs f (type_of f) ys sz t' ls'); try assumption; try lia.
+    + pose proof (proj_ty_depth k _ _ Hty) as Hd. unfold tdepth in *. rewrite <- (ow_minmax _ _ HT) in Hd. lia.
+    + cbn [sc] in Hsc. rewrite HT' in Hsc. rewrite <- (sc_ow _ _ _ Ho). exact Hsc.
+    + apply ow_refl.
+  - destruct Hfc as [-> He]. rewrite He in Hpl. destruct (proj_ty k t) as [t'|e'] eqn:Et.
+    + destruct Hpl as (? & Hx & _). discriminate.
+    + inversion Hpl; subst. split; reflexivity.
+Qed.
